@@ -10,7 +10,7 @@ import (
 // C02 — Search returns exactly the matching objects (DESIGN 4/C02).
 
 func init() {
-	drivers["C02"] = &driver{cases: tierN(160, 3000), run: runC02}
+	drivers["C02"] = &driver{cases: tierN(160, 6000), run: runC02}
 }
 
 // chain evaluates a left-deep And/Or chain on sod and folds it over the model.
